@@ -177,6 +177,12 @@ CHECKS = {
             "vacuity guard requires >= 80% of the programs to run on both.",
             "1-3 generated steps per workflow, far below the property's 1..6 steps with every combination; cwltool is the reference.",
             "3/C29"),
+    "C30": ("exploration", "E3", E3 + "; differential against cwltool on argument vectors, environment and stdin",
+            "CommandLineTools that print every argument they receive: 14 string classes x 3 binding forms, 10 input types x every "
+            "combination of position / prefix / separate, itemSeparator, valueFrom, arguments entries, orderings of three inputs, "
+            "ShellCommandRequirement with shellQuote, EnvVarRequirement values, stdin redirection; run by StreamFlow's cwl-runner and "
+            "by cwltool; oracle: both fail or identical printed vectors.",
+            "1-3 bound inputs per tool (the property speaks of 1..6); cwltool is the reference; local connector only.", "3/C30"),
 }
 
 NOT_YET = "check not built yet in this session (planned, see DESIGN.md section 3); no claim is made"
